@@ -49,6 +49,19 @@ class Opaque:
         return "Opaque(%s)" % self.what
 
 
+class ElemRef:
+    """A mutable reference to one element of a container the domain holds concretely (a Python list, a sympy Matrix with a tuple index):
+    what `iter_mut()`, `get_mut()`, `column_mut(c).iter_mut()` hand out."""
+    def __init__(self, lst, idx):
+        self.lst, self.idx = lst, idx
+
+    def get(self):
+        return self.lst[self.idx]
+
+    def set(self, v):
+        self.lst[self.idx] = v
+
+
 class PlaceRef:
     """`let r = &mut v[i];` — a mutable reference to an element: reads and writes through `*r` are redirected to the place expression it was
     taken of (evaluated in the same function; the index must not have changed in between)."""
@@ -371,6 +384,8 @@ class Interp:
         v = self.ev(n["e"])
         if isinstance(v, PlaceRef):
             v = self.ev(self.place_of_ref(v, n))
+        if isinstance(v, ElemRef):
+            v = v.get()
         if n["op"] == "Deref":
             return v
         if n["op"] == "Neg":
@@ -380,6 +395,8 @@ class Interp:
         raise Unsupported(n, "unary op")
 
     def num(self, v, n):
+        if isinstance(v, ElemRef):
+            v = v.get()
         if isinstance(v, (Opaque, ClosureVal, tuple, list, Variant)) or v is None:
             raise Unsupported(n, "non-numeric value %r in arithmetic" % (v,))
         return v
@@ -535,6 +552,13 @@ class Interp:
 
     def assign(self, lhs, val, node):
         l = peel(lhs)
+        if l.get("k") == "Local" and isinstance(self.env.get(l["id"]), ElemRef):
+            raw = lhs
+            while isinstance(raw, dict) and raw.get("k") in ("Paren", "DropTemps", "Use"):
+                raw = raw.get("e")
+            if isinstance(raw, dict) and raw.get("k") == "Un" and raw.get("op") == "Deref":
+                self.env[l["id"]].set(val)          # `*entry = value` through an element reference
+                return
         if l.get("k") == "Local":
             self.env[l["id"]] = val
             self.trace.append(("local", l["name"], val, node))
